@@ -878,17 +878,28 @@ pub fn check_c18(_case: &Case, h: &History) -> Vec<Violation> {
                 }
                 let base = pre[R_DS] as usize * 16 + pre[R_DX] as usize;
                 let cap = mt.mem[base % MB] as usize;
-                // every changed byte must lie inside [base+1, base+2+cap) (mod 2^20)
+                // post memory = pre + delta
+                let post_byte0 = |addr: usize| -> u8 {
+                    let a = (addr % MB) as u32;
+                    match nx.delta.iter().find(|(x, _)| *x == a) {
+                        Some((_, val)) => *val,
+                        None => mt.mem[a as usize],
+                    }
+                };
+                // what the service may write: the count byte, the stored characters and (the DOS
+                // reading) one terminator after them if the buffer still has room for it; every
+                // other byte - also the rest of the buffer beyond the stored line - is "other memory"
+                let stored = (post_byte0(base + 1) as usize).min(cap);
                 let inside = |addr: usize| -> bool {
                     let off = (addr + MB - (base % MB)) % MB;
-                    off >= 1 && off < 2 + cap
+                    off >= 1 && off < 2 + (stored + 1).min(cap)
                 };
                 let outside: Vec<&(u32, u8)> = nx.delta.iter().filter(|(a, _)| !inside(*a as usize)).collect();
                 if !outside.is_empty() {
                     v.push(Violation::new(
                         format!("C18:svc_mem_outside{{{}}}", tag),
                         format!(
-                            "int 0x21 AH=0Ah with capacity {} at {:#x} changed {} bytes outside the buffer (first at {:#x})",
+                            "int 0x21 AH=0Ah with capacity {} at {:#x} changed {} bytes other than the count and the stored line (first at {:#x})",
                             cap, base % MB, outside.len(), outside[0].0
                         ),
                     ));
